@@ -533,6 +533,11 @@ func normFact(f Fact) Fact {
 			}
 		}
 	}
+	// 0 < x for an unsigned x is x != 0
+	if t.Op == "<" && len(t.A) == 2 && t.A[0].IsAt("#0") && t.A[1].Op != "len" && isUnsigned(t.A[1].Typ) {
+		t = mk("==", t.A[1], atom("#0"))
+		f.Neg = !f.Neg
+	}
 	// len(x) tests -> (nonempty x)
 	if t.Op == "<" && len(t.A) == 2 {
 		a, b := stripConv(t.A[0]), stripConv(t.A[1])
@@ -674,4 +679,39 @@ func (s FactSet) FindFact(pattern string, neg bool) (Fact, Bind, bool) {
 		}
 	}
 	return Fact{}, nil, false
+}
+
+// Holds reports whether the set establishes the (normalised) boolean term t
+// with the given polarity, splitting conjunctions / disjunctions as condFacts does.
+func (s FactSet) Holds(t *Term, val bool) bool {
+	if t == nil {
+		return false
+	}
+	if t.Op == "!" && len(t.A) == 1 {
+		return s.Holds(t.A[0], !val)
+	}
+	if s.Has(normFact(Fact{T: t, Neg: !val})) {
+		return true
+	}
+	if t.Op == "&&" && val {
+		return s.Holds(t.A[0], true) && s.Holds(t.A[1], true)
+	}
+	if t.Op == "||" && !val {
+		return s.Holds(t.A[0], false) && s.Holds(t.A[1], false)
+	}
+	if t.Op == "&&" && !val {
+		return s.Holds(t.A[0], false) || s.Holds(t.A[1], false)
+	}
+	if t.Op == "||" && val {
+		return s.Holds(t.A[0], true) || s.Holds(t.A[1], true)
+	}
+	return false
+}
+
+func isUnsigned(T types.Type) bool {
+	if T == nil {
+		return false
+	}
+	b, ok := T.Underlying().(*types.Basic)
+	return ok && b.Info()&types.IsUnsigned != 0
 }
